@@ -374,8 +374,17 @@ def strip_compound(e):
 def gaddr(g):
     return '((P)&%s)' % cname(g)
 
+BYTE_EXPRS = set()   # C expressions known to point into i8 arrays (raw byte storage)
+
 def gep_expr(bt, base, idx):
     """base: C expr of type P; idx list of (type, cexpr)"""
+    r = gep_expr_(bt, base, idx)
+    return r
+
+def is_i8(t):
+    return isinstance(t, TInt) and t.w == 8
+
+def gep_expr_(bt, base, idx):
     t = bt
     terms = []
     const = 0
@@ -404,8 +413,10 @@ def gep_expr(bt, base, idx):
         else:
             raise ValueError('gep into %r' % t)
     off = ' + '.join(terms + ([str(const)] if const or not terms else []))
-    if off == '0': return base
-    return '(%s + (%s))' % (base, off)
+    res = base if off == '0' else '(%s + (%s))' % (base, off)
+    if is_i8(t) or (isinstance(t, TArr) and is_i8(t.e)) or base in BYTE_EXPRS:
+        BYTE_EXPRS.add(res)
+    return res
 
 def cast_int(op, st, dt, e):
     if op == 'trunc':
@@ -815,12 +826,17 @@ class FT:
                 it, e = self.typed_operand(tk); idx.append((it, e))
             d = self.define(dest, TPtr(TInt(8)))
             if self.va_alloca and base == self.va_alloca:
+                self.va_aliases = getattr(self, 'va_aliases', []) + [d]
                 return ['%s = (P)%s;' % (d, self.va_alloca)]
-            return ['%s = %s;' % (d, gep_expr(bt, base, idx))]
+            ge = gep_expr(bt, base, idx)
+            if ge in BYTE_EXPRS: BYTE_EXPRS.add(d)
+            return ['%s = %s;' % (d, ge)]
         if op in ('bitcast', 'addrspacecast'):
             st, e = self.typed_operand(tk); tk.expect('to'); dt = parse_type(tk)
             d = self.define(dest, dt)
-            if self.va_alloca and e == self.va_alloca: return ['%s = (P)%s;' % (d, e)]
+            if self.va_alloca and e == self.va_alloca:
+                self.va_aliases = getattr(self, 'va_aliases', []) + [d]
+                return ['%s = (P)%s;' % (d, e)]
             if isinstance(st, TPtr) and isinstance(dt, TPtr): return ['%s = %s;' % (d, e)]
             # scalar reinterpretation
             return ['{ %s tmp__ = %s; memcpy(&%s, &tmp__, sizeof(%s)); }' % (ctype(st), e, d, d)]
@@ -943,6 +959,12 @@ class FT:
             return ['__CPROVER_assert(%s, "%s");' % (args[0][1], lit)]
         if callee_name == '@__CPROVER_assume':
             return ['__CPROVER_assume(%s);' % args[0][1]]
+        if callee_name in ABI_OUT and dest and callee_name not in M.funcs:
+            # by-value aggregate return of a C function defined outside this module: the x86-64 ABI
+            # lowering (two registers) does not match the C prototype; call an out-parameter shim
+            d = self.define(dest, ret)
+            USED_SHIMS.add(callee_name)
+            return ['%s(%s, (P)&%s);' % (ABI_OUT[callee_name], ', '.join(a for _, a in args), d)]
         if callee_name in ('@_Znam', '@_Znwm') and dest and dest not in self.alloc_typed:
             mm = re.fullmatch(r'\(\(uint64_t\)(\d+)ULL\)', args[0][1])
             if mm and int(mm.group(1)) <= (1 << 20):
@@ -982,12 +1004,19 @@ class FT:
             d = self.define(dest, ret); return ['%s = (P)0;' % d]
         if base in ('memcpy', 'memmove', 'memset'):
             m = re.fullmatch(r'\(\(uint64_t\)(\d+)ULL\)', a[2])
-            if base == 'memcpy' and m and int(m.group(1)) % 8 == 0 and 0 < int(m.group(1)) <= 128:
+            if base == 'memcpy' and m and int(m.group(1)) % 8 == 0 and 0 < int(m.group(1)) <= 128 and a[0] not in BYTE_EXPRS and a[1] not in BYTE_EXPRS:
                 n = int(m.group(1)) // 8
                 return ['{ P *d__ = (P*)%s; P *s__ = (P*)%s; %s }' % (a[0], a[1], ' '.join('d__[%d] = s__[%d];' % (k, k) for k in range(n)))]
-            if False and base == 'memset' and m and int(m.group(1)) % 8 == 0 and 0 < int(m.group(1)) <= 256 and a[1] == '((uint8_t)0ULL)':
-                n = int(m.group(1)) // 8
-                return ['{ P *d__ = (P*)%s; %s }' % (a[0], ' '.join('d__[%d] = (P)0;' % k for k in range(n)))]
+            if base == 'memset' and m and 0 < int(m.group(1)) <= 256 and a[1] == '((uint8_t)0ULL)' and a[0] not in BYTE_EXPRS:
+                # zeroing (part of) a typed object: word-wise typed stores keep cbmc's field-level view of the
+                # object (a byte-wise memset turns the whole struct into a byte array and nothing folds any more)
+                sz = int(m.group(1)); n = sz // 8; rest = sz % 8
+                st = ['d__[%d] = (P)0;' % k for k in range(n)]
+                off = n * 8
+                if rest >= 4: st.append('*(uint32_t*)((P)d__ + %d) = 0;' % off); off += 4; rest -= 4
+                if rest >= 2: st.append('*(uint16_t*)((P)d__ + %d) = 0;' % off); off += 2; rest -= 2
+                if rest >= 1: st.append('*(uint8_t*)((P)d__ + %d) = 0;' % off)
+                return ['{ P *d__ = (P*)%s; %s }' % (a[0], ' '.join(st))]
             return ['%s(%s, %s, (size_t)%s);' % (base, a[0], a[1], a[2])]
         if base == 'expect':
             d = self.define(dest, ret); return ['%s = %s;' % (d, a[0])]
@@ -1014,7 +1043,8 @@ class FT:
             d = self.define(dest, ret); return ['%s = %s * %s + %s;' % (d, a[0], a[1], a[2])]
         if base == 'va_start':
             last = self.f.cparams[-1][1]
-            return ['va_start(%s, %s);' % (self.va_alloca, cname(last))]
+            # under cbmc va_list is a pointer that va_start assigns: refresh the aliases taken before it
+            return ['va_start(%s, %s);' % (self.va_alloca, cname(last))] + ['%s = (P)%s;' % (al, self.va_alloca) for al in getattr(self, 'va_aliases', [])]
         if base == 'va_end':
             return ['va_end(%s);' % self.va_alloca]
         if base == 'trap':
@@ -1033,6 +1063,8 @@ class FT:
 
 USED_FUNCS = {}
 STRS = {}
+ABI_OUT = {'@rtosc_argument': 'll_rtosc_argument', '@rtosc_itr_next': 'll_rtosc_itr_next'}
+USED_SHIMS = set()
 
 def parse_ret_type_call(tk):
     """type before callee in a call: either ret type or full fn type `ret (params)` (then callee follows after optional '*')"""
@@ -1133,6 +1165,9 @@ def main():
         ps = ', '.join(ctype(p) for p in ft.params)
         if ft.vararg: ps = (ps + ', ...') if ps else '...'
         if cn.startswith('__CPROVER_'): continue
+        if name in USED_SHIMS:
+            protos.append('extern void %s(%s, P);' % (ABI_OUT[name], ps)); declared.add(ABI_OUT[name])
+            continue
         protos.append('extern %s %s(%s);' % (ctype(ft.ret), cn, ps or 'void')); declared.add(cn)
     for cn, pr in (('memcpy', 'extern void *memcpy(void*, const void*, size_t);'), ('memmove', 'extern void *memmove(void*, const void*, size_t);'),
                    ('memset', 'extern void *memset(void*, int, size_t);')):
